@@ -574,9 +574,9 @@ func (w *world) forge(toB bool) {
 	}
 	d := kcp.VerifKCPState(dst.k)
 	var p []byte
-	kind := g.Intn(8)
+	kind := g.Intn(9)
 	if len(q) == 0 && kind < 5 {
-		kind = 5 + g.Intn(3)
+		kind = 5 + g.Intn(4)
 	}
 	switch kind {
 	case 0, 1, 2: // header field replaced by boundary values relative to the live state
@@ -628,6 +628,18 @@ func (w *world) forge(toB bool) {
 		binary.LittleEndian.PutUint32(p[16:], d.SndUna+uint32(g.Intn(int(d.SndNxt-d.SndUna)+3))-1)
 		binary.LittleEndian.PutUint32(p[20:], uint32(n))
 		copy(p[24:], g.Bytes(n))
+	case 8: // acknowledgements with a timestamp of any age: every 32-bit RTT sample reaches update_ack (C18)
+		ages := []uint32{0, 1, 50, 1000, 60000, 1000000, 100000000, 500000000, 716000000, 750000000, 900000000, 1073000000, 1 << 30, 1<<31 - 1, 1 << 31, g.U32()}
+		for i := 1 + g.Intn(3); i > 0; i-- {
+			h := make([]byte, 24)
+			binary.LittleEndian.PutUint32(h, d.Conv)
+			h[4] = 82
+			binary.LittleEndian.PutUint16(h[6:], uint16(g.Intn(300)))
+			binary.LittleEndian.PutUint32(h[8:], w.now-ages[g.Intn(len(ages))]-uint32(g.Intn(3)))
+			binary.LittleEndian.PutUint32(h[12:], d.SndUna+uint32(g.Intn(int(d.SndNxt-d.SndUna)+2)))
+			binary.LittleEndian.PutUint32(h[16:], d.SndUna)
+			p = append(p, h...)
+		}
 	default: // many small PUSH segments in one datagram (acklist clocking, window overflow attempt)
 		cnt := 1 + g.Intn(70)
 		for i := 0; i < cnt; i++ {
